@@ -9,8 +9,10 @@ mkdir -p /tmp/sv
 git -C /repo worktree remove --force $wt >/dev/null 2>&1
 git -C /repo worktree add -q --detach $wt HEAD || { echo "$d WORKTREE-FAIL"; exit 1; }
 res="$d"
-if git -C $wt apply $d/patch.diff 2>/dev/null || git -C $wt apply --3way $d/patch.diff 2>/dev/null; then res="$res APPLY=ok"; else res="$res APPLY=FAIL"; echo "$res"; git -C /repo worktree remove --force $wt; exit 1; fi
-git -C $wt diff HEAD > $d/patch.rebased.diff
+# the agent's patch, or - when a later fix: commit touched the same lines - the hand-rebased one kept beside it
+if git -C $wt apply $d/patch.diff 2>/dev/null || git -C $wt apply --3way $d/patch.diff 2>/dev/null; then res="$res APPLY=ok"; git -C $wt diff HEAD > $d/patch.rebased.diff
+elif [ -f $d/patch.rebased.diff ] && git -C $wt reset -q --hard HEAD && git -C $wt apply $d/patch.rebased.diff 2>/dev/null; then res="$res APPLY=ok"
+else res="$res APPLY=FAIL"; echo "$res"; git -C /repo worktree remove --force $wt; exit 1; fi
 if (cd $wt && go build ./... >/dev/null 2>&1); then res="$res BUILD=ok"; else res="$res BUILD=FAIL"; fi
 fails=$(cd $wt && go test -vet=off -count=1 ./... 2>&1 | grep -- "^--- FAIL" | grep -v TestIOZero | wc -l)
 res="$res TESTFAILS=$fails"
